@@ -9,7 +9,32 @@ from gen_programs import Gen, Scope
 
 PID = "C02"
 MANIFEST = {
-    "text": "34 Coq theorems.  LET round: WELL-FORMEDNESS (the scope chain mentions existing function cells only) IS AN "
+    "text": "47 Coq theorems.  LET2 round: WEAKENING IS PROVED (C02_weakening, _impl, _generic; proofs/C02Weak.v): a binding "
+            "of a name x that nothing mentions changes nothing — from scope chains that agree on every name other than x and "
+            "the same store, an expression in which x does not occur (nocc: not as identifier, {x} key, assignment target or "
+            "parameter) evaluates to the same outcome and store, the chains stay in agreement, and no value mentioning x "
+            "(vnm: hereditarily through lists, records, captured scopes) is ever created; all expression forms incl. "
+            "assignments / do-blocks / calls, every depth; generic in operators/built-ins that create no mention (ops_nm), "
+            "discharged for binop_impl, builtin_impl, builtin_full by instantiating GenOps.v / AllGenClosed.v "
+            "(C02_ops_create_no_mention).  The Prop C02_weakening_full as the LET round stated it (x merely not FREE in the "
+            "function bodies of the scope) is REFUTED (C02_weakening_full_refuted: g = () => (x = 5) observes a binding of x "
+            "by assigning it; reproduced on the CLI) — not a defect, the statement was wrong.  THE TWO-STATEMENT LET LAW IS "
+            "PROVED (C02_let_program, _impl, _after_any_prefix; proofs/C02LetProg.v): `x = s; C[x]` versus `C[s]` from the same "
+            "configuration (after any program prefix), C a sequential context, x fresh, value of s cell-free: whenever `x = s` "
+            "succeeds the outcomes are equal up to cell renaming, errors included; both build profiles, builtin_impl and "
+            "builtin_full; from the sequential-context theorem + eval-twice + weakening + store-extension invariance.  "
+            "Freshness w.r.t. the functions of the scope is necessary: C02_let_program_nofresh_refuted (f = y => x + y; "
+            "x = 1; f(1) + x is 3, f(1) + 1 fails; reproduced on the CLI).  Still PARTIAL / kept as Props: "
+            "C02_let_program_full with freshness = 'x not free' instead of 'x does not occur' (a lambda whose PARAMETER is x, "
+            "or that captured its own x, is excluded by nocc/vnm although it cannot observe the binding: needs the two-mode "
+            "relation 'chains agree on all names once x is shadowed'), C02_let_abstraction_full (occurrences under lambdas / "
+            "do-blocks).  SEVERAL occurrences in sequential position ARE proved (C02_let_program_multi, "
+            "C02_let_abstraction_seq_multi_partial: sctxs = reflexive-transitive closure of sctx, C[x, x] -> C[s, x] -> C[s, s]; "
+            "each step has its own renaming — the k-th evaluation of s allocates a fresh block — and equality up to cell "
+            "indices composes).  New stream LET-FRESHNESS: the witnesses of the two _refuted lemmas and four controls, on "
+            "the implementation and through the model.  The LET-SEQ stream now has a MODEL SIDE: the same program pairs through "
+            "run_program_full by vm_compute, compared with the implementation line by line, and the law re-evaluated on the "
+            "model's outcomes.  LET round: WELL-FORMEDNESS (the scope chain mentions existing function cells only) IS AN "
             "INVARIANT — preserved by every evaluation (every expression form, FunctionDef::call, every depth), every result "
             "mentions existing cells only; generic in operators/built-ins that create no dangling cell, discharged for "
             "binop_impl, builtin_impl and builtin_full (C02_cfg_wf_preserved*, C02_ops_create_no_dangling_cell) — hence it "
@@ -19,8 +44,7 @@ MANIFEST = {
             "assignment-free siblings (allocating cells, calling functions, failing), in any call argument / list item / "
             "right operand / index / callee, in a conditional branch taken or not taken; still PARTIAL: one occurrence, "
             "outside lambdas and do-blocks, cell-free value (kept: C02_let_abstraction_full), and stated in the scope that "
-            "already binds x (the two-statement law C02_let_program_full needs the weakening lemma C02_weakening_full: a "
-            "binding of a name nothing mentions changes nothing — both kept as Props).  Searched on the implementation by "
+            "already binds x (the two-statement law and weakening: proved in the LET2 round, see above).  Searched on the implementation by "
             "the new stream LET-SEQ (non-head positions by class: after allocating siblings, call arguments, branches taken "
             "/ not taken, right operands of and/or/coalesce, nested).  Earlier rounds: 'No effect on values' at full strength over the evaluator model: STORE-EXTENSION INVARIANCE "
             "(a simulation over every expression form, FunctionDef::call and every depth: evaluating from a store related "
@@ -427,12 +451,59 @@ def main(argv):
                               "place changed the result" % cls,
                               {"kind": "impl-law", "program": o, "variant": v, "subexpression": sub, "context_class": cls,
                                "observed": [vo[-1], vv[-1]], "rerun": "./check C02 --replay <this file>"})
+    # LET2 round: the MODEL side of LET-SEQ.  The same program pairs through `run_program_full` (vm_compute), outcomes
+    # compared line by line with the implementation as the EVAL streams do: ties the object of
+    # C02_let_abstraction_seq_partial / C02_let_program (the model's evaluation of C[x] after `x = s`, and of C[s]) to the
+    # code on exactly these programs.  And the LAW evaluated on the model's own outcomes (a model-side failure of the law on
+    # a program inside the theorem's hypotheses would contradict C02_let_program: reported as a broken tie).
+    seq_model = {"programs": 0, "agree": 0, "mismatch": 0, "unmodelled": 0, "rejected_by_translator": 0,
+                 "law_checked_on_model": 0, "law_failures_on_model": 0, "per_class_agree": {}}
+    try:
+        stride = max(1, len(seq) // 10000)           # every pair in quick (about 6 ms per program); thorough: ~10000 pairs
+        n_tpl = sum(len(v_) for v_ in SEQ_CTX.values())
+        while stride > 1 and any(stride % q_ == 0 and n_tpl % q_ == 0 for q_ in range(2, n_tpl + 1)):
+            stride += 1                              # coprime with the number of templates: every template is visited
+        sel_k = list(range(0, len(seq), stride))
+        sel_p, sel_o = [], []
+        for k in sel_k:
+            sel_p += [flat[2 * k], flat[2 * k + 1]]
+            sel_o += [outs[2 * k], outs[2 * k + 1]]
+        coq4, _ = es.parse_to_coq(h, sel_p)
+        model4 = es.model_eval(coq4, tag="c02seq")
+        sq_agree, mism4, sq_skip, sq_rej = es.compare(sel_p, sel_o, model4)
+        seq_model.update({"programs": len(sel_p), "agree": sq_agree, "mismatch": len(mism4), "unmodelled": sq_skip,
+                          "rejected_by_translator": sq_rej, "stride": stride})
+        bad = {i_ for i_, _, _ in mism4}
+        for j, k in enumerate(sel_k):
+            cls = seq[k][0]
+            mo, mv = model4[2 * j], model4[2 * j + 1]
+            if mo is None or mv is None or "UNMODELLED" in mo or "UNMODELLED" in mv:
+                continue
+            if 2 * j not in bad and 2 * j + 1 not in bad:
+                seq_model["per_class_agree"][cls] = seq_model["per_class_agree"].get(cls, 0) + 1
+            wo = mo.split(";ENV:")[0].split("|")
+            wv = mv.split(";ENV:")[0].split("|")
+            if not (len(wv) >= 2 and wv[-2].startswith("OK") and len(wv) == len(wo) + 1):
+                continue
+            seq_model["law_checked_on_model"] += 1
+            if strip_names(wo[-1]) != strip_names(wv[-1]):
+                seq_model["law_failures_on_model"] += 1
+                if seq_model["law_failures_on_model"] <= 2:
+                    res.tie_broken("LET-SEQ: the let-abstraction law fails on the MODEL's own outcomes (class %s)" % cls,
+                                   "C[s]: %r\nx = s; C[x]: %r\nmodel: %s | %s" % (seq[k][2], seq[k][3], wo[-1], wv[-1]))
+        if mism4:
+            i4, r4_, m4_ = mism4[0]
+            res.tie_broken("correspondence C02/LET-SEQ: model and implementation disagree on %d of %d programs"
+                           % (len(mism4), len(sel_p)), "first: %r\nimpl : %s\nmodel: %s" % (sel_p[i4], r4_, m4_))
+    except c.BrokenTie as e:
+        res.tie_broken(e.what, e.detail)
     res.streams["LET-SEQ"] = {"programs": 2 * len(seq), "pairs": len(seq),
                               "contexts_per_class": {cls: len(ctxs) for cls, ctxs in SEQ_CTX.items()},
                               "checked_per_class": seq_checked, "both_succeed_per_class": seq_both_ok,
                               "subexpression_kinds": sub_kinds, "skipped_abstraction_or_prefix_failed": seq_skipped,
                               "violations": seq_viol,
-                              "law": "t9fresh = s succeeds => outcome(C[t9fresh]) == outcome(C[s]) up to function names"}
+                              "law": "t9fresh = s succeeds => outcome(C[t9fresh]) == outcome(C[s]) up to function names",
+                              "model_side": seq_model}
 
     # ---------------- (d) the boundary the eval-twice theorem singles out (hypothesis old_names_kept):
     # an expression that NAMES a function cell which existed before it and had no name yet.  Class F52 (known
@@ -481,6 +552,53 @@ def main(argv):
                                    "expected": "the statements t1 and t2 give the same result"})
     # the model reproduces the boundary exactly (correspondence on the shapes outside the known class; the F52
     # shapes are counted but not diffed, so that a repair of F52 does not raise an alarm here)
+    # ---------------- (c'') LET-FRESHNESS (LET2 round): the boundary of the freshness hypothesis of C02_let_program.
+    # Witness pairs of the two `_refuted` lemmas (a function of the scope that READS x9 late-bound; one that ASSIGNS x9) must
+    # behave on the implementation as the model says (A and B differ) — they are run through the model too; control pairs
+    # in which x9 is semantically fresh although a function mentions the name as its own parameter / a do-block local /
+    # an unrelated name must satisfy the law (outside the theorem's syntactic hypothesis, inside the law).
+    FRESH = [
+        ("witness_reads_late_bound", "f9 = y => x9 + y\n", "1", "f9(1) + %s", True),
+        ("witness_assigns", "g9 = () => (x9 = 5)\n", "1", "[g9(), %s][0]", True),
+        ("control_unrelated_name", "z9 = 0\nf9 = y => z9 + y\n", "1", "f9(1) + %s", False),
+        ("control_parameter_named_x", "h9 = x9 => x9 + 1\n", "1", "h9(1) + %s", False),
+        ("control_do_block_local", "d9 = () => do {\n  x9 = 5\n  return x9\n}\n", "1", "d9() + %s", False),
+        ("control_captured_own_x", "m9 = (x9 => (y => x9 + y))(2)\n", "1", "m9(1) + %s", False),
+    ]
+    fr_progs = []
+    for _, pre, sub, ctx, _ in FRESH:
+        fr_progs += [pre + (ctx % sub), pre + "x9 = " + sub + "\n" + (ctx % "x9")]
+    fr_out = es.rust_eval(h, fr_progs)
+    fr_stream = {"pairs": len(FRESH), "witnesses_differ": 0, "controls_equal": 0, "model_agree": 0}
+    for k, (nm, pre, sub, ctx, is_witness) in enumerate(FRESH):
+        lo, lv = last(fr_out[2 * k]), last(fr_out[2 * k + 1])
+        if is_witness:
+            if strip_names(lo) == strip_names(lv):
+                res.tie_broken("LET-FRESHNESS: the witness %s of the _refuted lemmas no longer distinguishes `x9 = s; C[x9]` from "
+                               "`C[s]` on the implementation" % nm, "%r -> %s ; %r -> %s" % (fr_progs[2 * k], lo, fr_progs[2 * k + 1], lv))
+            else:
+                fr_stream["witnesses_differ"] += 1
+        elif strip_names(lo) != strip_names(lv):
+            res.violation("binding a subexpression to a fresh name and using the name in its place changed the result "
+                          "(freshness control %s)" % nm,
+                          {"kind": "impl-law", "program": fr_progs[2 * k], "variant": fr_progs[2 * k + 1],
+                           "observed": [lo, lv], "rerun": "./check C02 --replay <this file>"})
+        else:
+            fr_stream["controls_equal"] += 1
+    try:
+        coq5, _ = es.parse_to_coq(h, fr_progs)
+        model5 = es.model_eval(coq5, tag="c02fresh")
+        fa, mism5, _, _ = es.compare(fr_progs, fr_out, model5)
+        fr_stream["model_agree"] = fa
+        if mism5:
+            i5, r5_, m5_ = mism5[0]
+            res.tie_broken("correspondence C02/LET-FRESHNESS: model and implementation disagree on %d of %d programs"
+                           % (len(mism5), len(fr_progs)), "first: %r\nimpl : %s\nmodel: %s" % (fr_progs[i5], r5_, m5_))
+    except c.BrokenTie as e:
+        res.tie_broken(e.what, e.detail)
+    fr_stream["shapes"] = [nm for nm, _, _, _, _ in FRESH]
+    res.streams["LET-FRESHNESS"] = fr_stream
+
     nb_agree = nb_mism = 0
     try:
         stride = 2 if tier == "quick" else 1
@@ -577,6 +695,7 @@ def main(argv):
                                                   "builtins_named": sorted({w for e9 in TF_EXPRS for w in re.findall(r"[a-z_]+(?=\()", e9)})}}
     res.coverage["evaluations"] = n_prog * (nproc + 1) + len(flat) + 2 * cli_n + len(nb_progs)
     res.coverage["evaluations"] += len(tf_progs)
+    res.coverage["evaluations"] += len(fr_progs)
     res.coverage["distinct_nontrivial"] = len({r for r in runs[0] if "OK:" in r}) + let_checked
     res.coverage["rule"] = ("generated well-scoped programs (typed generator, scope tracking) each run in %d separate "
                             "processes + once more after unrelated evaluations in the same process + the model; %d "
@@ -585,6 +704,7 @@ def main(argv):
                             "with a successful statement + abstraction pairs actually compared" % (nproc, n_let, len(HOLES)))
     res.coverage["samples"] = [{"program": pairs[i][0], "variant": pairs[i][1]} for i in (0, 1, 2)]
     res.coverage["traces_validated_against_impl"] = agree
+    res.coverage["traces_validated_against_impl_let_seq"] = seq_model["agree"] + fr_stream["model_agree"]
     # F52 once fixed: its witness stays a regression input; a reappearance is a violation
     if not f52_open:
         w52 = "fs = [x => x + y]\ny = 5\nt1 = [fs[0](1), do { y = fs[0]; return 0 }]\nt2 = [fs[0](1), do { y = fs[0]; return 0 }]"
